@@ -131,13 +131,13 @@ var plans = map[string]*plan{
 	"C08": {
 		Level: "exploration",
 		Rule: "sequential histories (20..50 steps, synctest) over 10 topics: retained / plain / empty-payload (clearing) publishes at QoS 0..2 by 3..5 raw clients and Server.Publish, new subscriptions (16 literal and wildcard filters, 1..3 per request, granted 0..2) by raw clients and Server.Subscribe, unsubscribes, and filler traffic of more than two ring sizes. Model: topic -> (uid, QoS) last-writer-wins, cleared by an empty retained payload. " +
-			"At every new subscription the PUBLISH packets after the SUBACK must be exactly one per (filter, matching stored topic), retain=1, QoS min(stored, granted), CRC-correct payload of the model's current uid; live forwards are checked with the C01 oracle and must carry retain=0. distinct = (filter shape, granted QoS, number of stored topics).",
-		Quick:          []batchSpec{{Test: "TestC08", N: 8, Timeout: 15 * m}},
-		Thorough:       []batchSpec{{Test: "TestC08", N: 16, Timeout: 60 * m}},
-		EvalStats:      []string{"c08.subscriptions", "c08.retained_publishes"},
-		Floors:         map[string]int64{"c08.histories": 1100, "c08.subscriptions": 10000, "c08.retained_deliveries": 15000, "c08.clears": 3000, "c08.filler_rounds": 3000, "classes": 150},
+			"At every new subscription the PUBLISH packets after the SUBACK must be exactly one per (filter, matching stored topic), retain=1, QoS min(stored, granted), CRC-correct payload of the model's current uid; live forwards are checked with the C01 oracle and must carry retain=0. Concurrent (real time): one writer per topic publishes retained versions 1,2,3.. of different lengths while 2..4 subscribers subscribe/unsubscribe; every retained delivery must pass its CRC, versions must not go backwards per subscriber, and the per-topic history (write = retained publish, read = new subscription) must be linearizable w.r.t. a register model (porcupine). distinct = (filter shape, granted QoS, number of stored topics) + run configurations.",
+		Quick:          []batchSpec{{Test: "TestC08", N: 8, Timeout: 15 * m}, {Test: "TestC08Conc", N: 4, Timeout: 15 * m}},
+		Thorough:       []batchSpec{{Test: "TestC08", N: 16, Timeout: 60 * m}, {Test: "TestC08Conc", N: 16, Timeout: 60 * m}, {Test: "TestC08Conc", N: 4, Race: true, Timeout: 60 * m}},
+		EvalStats:      []string{"c08.subscriptions", "c08.retained_publishes", "c08.conc.ops"},
+		Floors:         map[string]int64{"c08.histories": 1100, "c08.subscriptions": 10000, "c08.retained_deliveries": 15000, "c08.clears": 3000, "c08.filler_rounds": 3000, "c08.conc.histories": 110, "c08.conc.retained_deliveries": 20000, "classes": 150},
 		FloorsThorough: map[string]int64{"c08.histories": 35000, "classes": 200},
-		Assumptions:    []string{"quiescence by synctest.Wait()", "the concurrent half of the property (retained updates racing new subscriptions) is covered by the C18/C08 concurrent workload where built"},
+		Assumptions:    []string{"quiescence by synctest.Wait()", "a retained publish has certainly taken effect when the publisher's next packet is acknowledged (PUBACK is written before the store is updated)"},
 	},
 	"C09": {
 		Level:          "fault_enumeration",
